@@ -110,7 +110,8 @@ Proof.
   - destruct (sz <? 0) eqn:N0; [discriminate|]. apply Z.ltb_ge in N0. inversion H; subst. lia.
 Qed.
 
-(* ---------- the code as it is can panic: one witness per site ---------- *)
+(* ---------- without the range check of readUvarintAsInt the reader panics:
+   one witness per site that the check protects ---------- *)
 
 Definition no_lz4 : bytes -> Z -> option bytes := fun _ _ => None.
 Definition mib : Z := 1048576.
@@ -129,7 +130,14 @@ Proof. vm_compute. reflexivity. Qed.
 Lemma lookup_witness : out (parse no_lz4 false mib w_lookup) = Panic.
 Proof. vm_compute. reflexivity. Qed.
 
-Theorem zng_no_panic_refuted :
+(* the same inputs are refused by the code as it is *)
+Lemma witnesses_rejected :
+  out (zng_parse no_lz4 mib w_newbuffer) = Err EBadFormat /\
+  out (zng_parse no_lz4 mib w_bufread) = Err EBadFormat /\
+  out (zng_parse no_lz4 mib w_lookup) = Err EBadFormat.
+Proof. repeat split; vm_compute; reflexivity. Qed.
+
+Theorem uvarint_guard_necessary :
   (exists b, List.length b = 13%nat /\ read_comp_header false mib 91 (tl b) = RPanic) /\
   (exists b, List.length b = 13%nat /\ out (parse no_lz4 false mib b) = Panic /\ nth 0 b 0%N = 11%N) /\
   (exists b, List.length b = 13%nat /\ out (parse no_lz4 false mib b) = Panic /\ nth 0 b 0%N = 27%N).
@@ -140,7 +148,7 @@ Proof.
   - exists w_lookup. repeat split; vm_compute; reflexivity.
 Qed.
 
-(* ---------- with the repaired conversion nothing in the model panics ---------- *)
+(* ---------- the code as it is ([checked = true]): nothing in the model panics ---------- *)
 
 Section Fixed.
   Variable lz4 : bytes -> Z -> option bytes.
@@ -291,6 +299,9 @@ Section Fixed.
 
   Theorem parse_fixed_no_panic : forall b, out (parse lz4 true max b) <> Panic.
   Proof. intros b. unfold parse. apply stream_fixed. Qed.
+
+  Theorem zng_no_panic : forall b, out (zng_parse lz4 max b) <> Panic.
+  Proof. exact parse_fixed_no_panic. Qed.
 End Fixed.
 
 (* ---------- progress: the explicit fuel is never what stops a loop ---------- *)
@@ -567,3 +578,19 @@ Transparent typedefs values read_payload.
    explicit fuel of [parse] is never what stops it *)
 Theorem parse_never_out_of_fuel : forall lz4 c max b, out (parse lz4 c max b) <> Err EFuel.
 Proof. intros. unfold parse. apply stream_fuel_enough. lia. Qed.
+
+Theorem zng_never_out_of_fuel : forall lz4 max b, out (zng_parse lz4 max b) <> Err EFuel.
+Proof. intros. apply parse_never_out_of_fuel. Qed.
+
+(* every run of the reader ends in decoded values or an error *)
+Theorem zng_total : forall lz4 max b,
+  (exists n, out (zng_parse lz4 max b) = Ok n) \/
+  (exists e, out (zng_parse lz4 max b) = Err e /\ e <> EFuel).
+Proof.
+  intros lz4 max b.
+  pose proof (zng_no_panic lz4 max b) as P. pose proof (zng_never_out_of_fuel lz4 max b) as F.
+  destruct (out (zng_parse lz4 max b)) as [n|e|].
+  - left. exists n. reflexivity.
+  - right. exists e. split; [reflexivity|congruence].
+  - congruence.
+Qed.
